@@ -331,6 +331,13 @@ class Scheduler:
     def _dispatch(self, lt: LT):
         """Pick who runs next; hand the baton over if it is not the caller"""
         while True:
+            if self.now > self.time_horizon and not self.aborting:
+                self.horizon_hit = True
+                self._abort_all(lt, "time horizon")
+            for event in self.env_events:
+                if not event.fired and event.deadline is not None and event.deadline <= self.now:
+                    event.fired = True
+                    event.fire(self)
             alts, costs = self._alternatives(lt)
             if not alts:
                 if self._advance_time():
@@ -531,6 +538,10 @@ class AEvent:
         self._point("event-is_set")
         return self._flag
 
+    def peek(self):
+        """The flag, without a scheduling point (for harness predicates only)"""
+        return self._flag
+
     isSet = is_set
 
     def set(self):
@@ -613,8 +624,16 @@ class AThread(REAL_THREAD):
     """Replacement of ``threading.Thread``: a logical thread of the scheduler"""
 
     _cosched_label = None
+    _cosched_counter = [0]
+
+    def __hash__(self):
+        # sets of threads (e.g. ThreadPoolExecutor._threads) iterate in creation order
+        # instead of address order, so that joins happen in a reproducible order
+        return self._cosched_seq
 
     def __init__(self, *args, **kwargs):
+        AThread._cosched_counter[0] += 1
+        self._cosched_seq = AThread._cosched_counter[0]
         super().__init__(*args, **kwargs)
         # Thread.__init__ picked up the patched Event; the start handshake must stay real
         self._started = RealEvent()
